@@ -122,7 +122,71 @@ pub fn block(rng: &mut Rng) -> String {
     }
 }
 
+/// recipes built around a small pool of names so that definitions, explicit/implicit references with
+/// quantities (same unit, compatible, incompatible, text vs number), intermediate references across text blocks
+/// and mode switches actually meet (the free generator almost never makes two components share a name)
+pub fn ref_scenario(rng: &mut Rng) -> String {
+    const POOL: &[&str] = &["water", "Water", "sea salt", "oil", "é", "pan"];
+    const QTYS: &[&str] = &["", "", "1%l", "2%kg", "500%ml", "1%cup", "3", "a bit", "some%g", "1/2%l", "2-3%kg", "1%bag", "2%Bag", "=1%l", "0", "1%", "5%min", "%kg"];
+    let mut s = String::new();
+    if rng.chance(1, 4) {
+        s.push_str(rng.pick_str(&[">> [duplicate]: ref\n\n", ">> [duplicate]: reference\n\n", ">> [define]: ingredients\n\n", ">> [define]: steps\n\n", ">> [define]: text\n\n", ">> [mode]: components\n\n", ">> [duplicate]: new\n\n"]));
+    }
+    let k = 2 + rng.below(3);
+    let names: Vec<&str> = (0..k).map(|_| rng.pick_str(POOL)).collect();
+    let n = 2 + rng.below(7);
+    for i in 0..n {
+        if i > 0 {
+            s.push_str(rng.pick_str(&[" ", " then ", ".\n\n", "\n\n", "\n\n> note @water{}\n\n", "\n\n= part\n\n", "\n\n>> [mode]: steps\n\n", "\n\n>> [mode]: components\n\n", "\n\n>> [define]: all\n\n", "\n"]));
+        }
+        let marker = rng.pick_str(&["@", "@", "@", "#"]);
+        s.push_str(marker);
+        match rng.below(12) {
+            0..=3 => s.push('&'),
+            4 => s.push_str(rng.pick_str(&["&(1)", "&(~1)", "&(~2)", "&(=1)", "&(=~1)", "&(2)", "&(~3)", "&(=2)"])),
+            5 => s.push_str(rng.pick_str(&["+", "-", "?", "+&", "&-", "&?", "@", "&@", "-&", "??"])),
+            _ => {}
+        }
+        s.push_str(names[rng.below(names.len())]);
+        s.push('{');
+        s.push_str(rng.pick_str(QTYS));
+        s.push('}');
+        if rng.chance(1, 8) { s.push_str(rng.pick_str(&["(chopped)", "()", "(a)(b)"])); }
+    }
+    if rng.chance(1, 3) { s.push('\n'); }
+    s
+}
+
+/// metadata written twice / in both styles, time keys that override each other, special keys with bad values
+pub fn meta_scenario(rng: &mut Rng) -> String {
+    const KEYS: &[&str] = &["time", "prep time", "cook time", "prep_time", "cook_time", "duration", "time required", "servings", "serves", "yield", "tags", "author", "source", "locale", "title", "[mode]", "[define]", "[duplicate]", "x"];
+    const VALS: &[&str] = &["1h", "10 min", "90", "1h 30m", "a while", "2", "2-4", "a, b", "", "Ann <http://a.b>", "<x>", "en_US", "é", "steps", "ref", "-1", "4294967296", "1e400"];
+    let mut s = String::new();
+    if rng.chance(1, 2) {
+        s.push_str("---\n");
+        for _ in 0..(1 + rng.below(4)) {
+            let k = rng.pick_str(KEYS);
+            match rng.below(6) {
+                0 => s.push_str(&format!("{k}: {{prep: {}, cook: {}}}\n", rng.pick_str(VALS), rng.pick_str(VALS))),
+                1 => s.push_str(&format!("{k}: [{}, {}]\n", rng.pick_str(VALS), rng.pick_str(VALS))),
+                _ => s.push_str(&format!("{k}: {}\n", rng.pick_str(VALS))),
+            }
+        }
+        s.push_str("---\n");
+    }
+    for _ in 0..(1 + rng.below(4)) {
+        s.push_str(&format!(">> {}: {}\n", rng.pick_str(KEYS), rng.pick_str(VALS)));
+        if rng.chance(1, 3) { s.push_str(&format!("\n{}\n\n", step(rng))); }
+    }
+    s
+}
+
 pub fn recipe(rng: &mut Rng) -> String {
+    match rng.below(10) {
+        0 | 1 => return ref_scenario(rng),
+        2 => return meta_scenario(rng),
+        _ => {}
+    }
     let mut s = String::new();
     if rng.chance(1, 40) { s.push_str(rng.pick_str(EXOTIC)); }
     if rng.chance(1, 8) {
